@@ -5,7 +5,7 @@ import os
 
 VERIF = os.path.dirname(os.path.dirname(os.path.abspath(__file__)))
 KNOWN_PATH = os.path.join(VERIF, 'known_findings.json')
-REPLAY_DIR = os.path.join(VERIF, 'replays')
+REPLAY_DIR = os.path.join(os.environ.get('VERIF_OUT', VERIF), 'replays')
 
 
 def load_known():
